@@ -107,7 +107,10 @@ def strategy(tier):
         # servers: the served namespaces are configured as a list (the
         # judged namespace and one more, which has handlers of its own for
         # the same event and a catch-all) instead of '*'
-        'nslist': st.sampled_from([False, False, True])}).map(
+        'nslist': st.sampled_from([False, False, True]),
+        # every function target is registered twice: an earlier handler
+        # first, then the one that counts
+        'rereg': st.sampled_from([False, False, True])}).map(
             lambda d: _norm(d, cl))
 
 
@@ -117,7 +120,7 @@ def _norm(d, cl):
              frame=d['frame'], fault=d.get('fault'),
              shared_legacy=d.get('shared_legacy', False),
              mixed=d.get('mixed'), early=d.get('early'),
-             nslist=d.get('nslist', False))
+             nslist=d.get('nslist', False), rereg=d.get('rereg', False))
     if c['reserved']:
         ev = d['revent']
         if ev == 'connect_error' and not c['cls'].endswith('Client'):
@@ -230,15 +233,23 @@ def _run(case, socketio, cls, aio, server, loop):
         obj.on(event, fixed, namespace=ns)
         obj.on('disconnect', fixed, namespace=ns)
 
+    rereg = bool(case.get('rereg'))
+
+    def on(ev_, kind, ns_):
+        if rereg:
+            # registered before, then replaced: the last registration counts
+            obj.on(ev_, mk('replaced'), namespace=ns_)
+        obj.on(ev_, mk(kind), namespace=ns_)
+
     def register(kinds):
         if 'h' in kinds and not shared:
-            obj.on(event, mk('h'), namespace=ns)
+            on(event, 'h', ns)
         if 'hc' in kinds:
-            obj.on('*', mk('hc'), namespace=ns)
+            on('*', 'hc', ns)
         if 'sh' in kinds:
-            obj.on(event, mk('sh'), namespace='*')
+            on(event, 'sh', '*')
         if 'sc' in kinds:
-            obj.on('*', mk('sc'), namespace='*')
+            on('*', 'sc', '*')
         for kind, reg in (('cls', ns), ('scls', '*')):
             if kind in kinds:
                 o = nsbase(reg)
